@@ -111,22 +111,37 @@ def run(cx):
     skel_cases = vlib.read_ndjson(sk_out)
     for c in skel_cases:
         by_id[c["id"]] = c
-    sub = sub + [{"id": c["id"], "src": c["src"]} for c in skel_cases]
-    # the skeletons' code objects also go through the all-paths exploration
-    skc = cx.path("skel.codes.ndjson")
-    cx.run([bc, "codes", "-in", sk_out, "-out", skc])
-    srows2 = []
-    for r in vlib.read_ndjson(skc):
-        if r["res"]["k"] == "ok":
-            ncompiled += 1
-            for c in r["res"]["codes"]:
-                srows2.append({"pid": r["id"], "cid": c["id"], "root": c["root"], "ins": c["ins"]})
-    rows += srows2
-    for r in parallel_tlc(cx, "BytecodeMC", "VERIF_CODES", langlib.shard_cases(cx, srows2, nsh, "skcodes"), "skmc"):
-        for ln in r.lines:
-            m = re.match(r'^<<"LEAK", (\d+), "([^"]*)", "([^"]*)", (-?\d+), (-?\d+)>>$', ln.strip())
-            if m:
-                leaks.setdefault(int(m.group(1)), []).append((m.group(2), m.group(3), int(m.group(4)), int(m.group(5))))
+    # scaled shapes of Shapes.tla: n sibling functions / blocks / closures / constants / locals / cases, long jumps, deep nesting
+    sh_rows, _ = langlib.gen_shapes(cx, "scale")
+    shape_cases = [{"id": 2000000 + c["id"], "src": c["src"], "ast": c["ast"]} for c in sh_rows
+                   if not cx.quick() or len(c["src"]) < 4000]
+    sh_path = cx.path("shapes.cases.ndjson")
+    vlib.write_ndjson(sh_path, shape_cases)
+    for c in shape_cases:
+        by_id[c["id"]] = c
+
+    def add_family(fam_cases, fam_path, tag):
+        """The family's code objects go through the all-paths exploration, its executions through the step check."""
+        nonlocal ncompiled, rows, sub
+        sub = sub + [{"id": c["id"], "src": c["src"]} for c in fam_cases]
+        fc = cx.path(tag + ".codes.ndjson")
+        cx.run([bc, "codes", "-in", fam_path, "-out", fc])
+        frows = []
+        for r in vlib.read_ndjson(fc):
+            if r["res"]["k"] == "ok":
+                ncompiled += 1
+                for c in r["res"]["codes"]:
+                    frows.append({"pid": r["id"], "cid": c["id"], "root": c["root"], "ins": c["ins"]})
+        rows += frows
+        for r in parallel_tlc(cx, "BytecodeMC", "VERIF_CODES", langlib.shard_cases(cx, frows, nsh, tag + "codes"), tag + "mc"):
+            for ln in r.lines:
+                m = re.match(r'^<<"LEAK", (\d+), "([^"]*)", "([^"]*)", (-?\d+), (-?\d+)>>$', ln.strip())
+                if m:
+                    leaks.setdefault(int(m.group(1)), []).append((m.group(2), m.group(3), int(m.group(4)), int(m.group(5))))
+        return len(frows)
+
+    add_family(skel_cases, sk_out, "sk")
+    cx.cover["scaled_shape_code_objects"] = add_family(shape_cases, sh_path, "shp")
     sub_path = cx.path("sub.ndjson")
     vlib.write_ndjson(sub_path, sub)
     cx.run([bc, "steps", "-in", sub_path, "-out", steps_path, "-max", "1500"])
